@@ -217,6 +217,26 @@ pub fn run(opts: &Opts, rep: &mut Report) {
             fail("constructors-disagree", format!("Utf32Str::new = {c6:?}, From<&str> = {owned:?}"), rep);
         }
         rep.add("c17.constructors-compared", 5);
+        // the same text as a view into a larger buffer, at every start address modulo the machine word / vector width
+        for pad in 1..=(if idx % 4 == 0 { 16 } else { 3 }) {
+            let mut padded = String::with_capacity(s.len() + pad + 8);
+            padded.push_str(&"zzzzzzzzzzzzzzzz"[..pad]);
+            padded.push_str(&s);
+            padded.push_str("tail");
+            let view_str = &padded[pad..pad + s.len()];
+            let from_view = Utf32String::from(view_str);
+            let mut b2 = Vec::new();
+            let new_view = Utf32Str::new(view_str, &mut b2);
+            if from_view != owned || new_view != owned.slice(..) {
+                fail(
+                    "constructors-disagree",
+                    format!("the text taken as a view {pad} bytes into a larger buffer converts to {from_view:?} / {new_view:?}, as an owned String to {owned:?}"),
+                    rep,
+                );
+                break;
+            }
+        }
+        rep.count("c17.views-into-larger-buffers-compared");
         // views agree with the content
         let view = owned.slice(..);
         if content(view) != exp {
